@@ -233,6 +233,16 @@ pub fn run(rep: &mut Report) {
     }
     let cs: Vec<u64> = vec![0, 1, 999_999_999, NS_DAY as u64, WEEK as u64, 1 << 53, NPC as u64 - 1, NPC as u64, NPC as u64 + 1, 1 << 62, 1 << 63, (1 << 63) + 1, 2 * NPC as u64, 5 * NPC as u64 + 7, u64::MAX - 1, u64::MAX];
     sweep(rep, "c20.counter", 4 * cs.len() as u64, |i, out| j_counter((i % 4) as usize, cs[(i / 4) as usize], out));
+    // order independence (depth-2 operation sequences on one thread): time of week both ways, counters, day of year
+    crate::engine::order_pairs(rep, "c20.order", 4 * 12, |i, out| {
+        let ts = SCALES[(i % 9) as usize];
+        match i / 12 {
+            0 => j_from_tow([0u32, 1, 1024, 2086, 5218, 6366][(i % 6) as usize], [0u64, 1, 345_618_000_000_000, 604_799_999_999_999][((i / 3) % 4) as usize], ts, out),
+            1 => j_to_tow(ts, [0i128, 1, WEEK - 1, WEEK, 3 * NPC + 5, 1_261_440_018 * NS_S][(i % 6) as usize], out),
+            2 => j_counter((i % 4) as usize, [0u64, 1, NPC as u64 - 1, NPC as u64, u64::MAX, 1 << 63][(i % 6) as usize], out),
+            _ => j_doy([1i32, 200, 1582, 1900, 2024, 9999][(i % 6) as usize], [1u32, 60, 365][((i / 6) % 3 % 3) as usize], [0.0, 0.5][(i % 2) as usize], ts, out),
+        }
+    });
     for ts in [TimeScale::TAI, TimeScale::UTC, TimeScale::TT, TimeScale::GPST, TimeScale::GST, TimeScale::BDT, TimeScale::QZSST] {
         let mut el = lattice::el(ts, if q { 16 } else { 256 }, None);
         // both ends of each counter's domain, expressed in this scale
